@@ -370,11 +370,17 @@ func ParseContractFile(path, pkgPath string) (*ContractFile, error) {
 			case "assert":
 				// proved at the end of the loop body (before the post statement), then assumed;
 				// pre(e) refers to the value of e at the head of the current iteration
+				var lprops []string
+				for strings.HasPrefix(strings.TrimSpace(r3), "@") {
+					w1, r1 := splitWord(strings.TrimSpace(r3))
+					lprops = append(lprops, strings.TrimPrefix(w1, "@"))
+					r3 = r1
+				}
 				e, err := ParseSpecExpr(r3)
 				if err != nil {
 					return nil, fail(err)
 				}
-				ls.Asserts = append(ls.Asserts, Clause{Text: r3, E: e, Line: rc.line, File: path})
+				ls.Asserts = append(ls.Asserts, Clause{Text: r3, E: e, Line: rc.line, File: path, Props: lprops})
 			case "summarize":
 				ls.Summarize = true
 			case "unroll":
